@@ -97,6 +97,7 @@ func c07Run(c *Ctx) {
 			ob.Undecided("body outside the path vocabulary: %s", why)
 			continue
 		}
+		paths = v.flagNorm(paths) // a result kept in a local and a loop left by break read as the early return they stand for
 		// R1: every outcome starts with the own-type test; no foreign type test anywhere; a failed test decides alone
 		bad := ""
 		for _, o := range boolOutcomes(paths) {
